@@ -188,7 +188,12 @@ TEXT = {
         "technique": "Lean 4 proof (arithmetic tiling theorem; trace monitor proved sound for all scripts by induction, relation between the monitor's record and PieceRx) + the same monitor on implementation traces + differential correspondence",
     },
     "C09": {
-        "level": "Kernel-checked for all (index, begin, length) in N^3 (so in particular all of u32^3, with begin+length computed without wrap-around) and all "
+        "level": "Kernel-checked for the WHOLE CLIENT with the disk in the loop (T5, Props/C09Whole: any number of connection tasks and the manager in closed loop, "
+                 "the file a task loads being what was last stored under that name, the manager answering RecvRequest with LoadAndSendPiece only for an owned "
+                 "piece with its listed hash; every input, interleaving and chooser outcome): every block of piece data (index, begin, block) any task has ever "
+                 "sent is the range at begin of data whose hash is the one the torrent lists for that piece, of a piece the client owns and for which a verified "
+                 "piece file was written (invariant over reachable states: what is stored hashes to its name - from the C01 monitor per step; a loaded piece is "
+                 "good - from the C09 monitor per step, the gate and the disk; C12's absorbing Have; C01.T6). And kernel-checked for all (index, begin, length) in N^3 (so in particular all of u32^3, with begin+length computed without wrap-around) and all "
                  "scripts of requests, choke/unchoke broadcasts and other traffic: the task's trace satisfies the monitor P09 (C09_trace) — per request either no "
                  "piece data, or exactly one Piece with the same index and offset carrying bytes [begin, begin+length) of the piece loaded at the last consult of "
                  "the manager, length <= PIECE_BLOCK_SIZE (= 16384 by decide), range inside the piece; the manager is consulted again after every Choke sent; no "
